@@ -37,6 +37,7 @@ fn main() {
     // panics are observations, not noise: remember the location, print nothing
     std::panic::set_hook(Box::new(|info| {
         let loc = info.location().map(|l| format!("{}:{}", l.file(), l.line())).unwrap_or_default();
+        if std::env::var_os("VERIF_PANIC_TRACE").is_some() { eprintln!("panic at {loc}: {info}"); }
         LAST_PANIC.with(|p| *p.borrow_mut() = loc);
     }));
     if area == "dump-os" { dump_os::run(&out); return; }
